@@ -20,11 +20,21 @@ def access_key(op: dict[str, Any]) -> list[Any]:
             op.get("encoding") or "utf-8"]
 
 
+def stored_name(op: dict[str, Any], name: str) -> str:
+    """File name an op stores its text under: normally unique per op; with a ``slot`` the same
+    path is written again and again (a file replaced in place between parses)."""
+    if op.get("slot") is not None:
+        return name.split("o")[0] + f"slot{op['slot']}"
+    return name
+
+
 def do_parse(fs: simfs.SimFS, op: dict[str, Any], data: bytes, name: str,
              faults: bool = True) -> Any:
     from chartparse.chart import Chart
 
     selp = op.get("select")
+    if faults:
+        name = stored_name(op, name)
     tape = dict(op.get("io") or {}) if faults else {}
     if op.get("via") == "path":
         p = fs.put(name + ".chart", data)
